@@ -117,5 +117,14 @@ fn main() {
     drop(t);
     let _ = Difficulty::new().gradual_difficulty_for_mode::<Catch>(&map).map(|mut c| c.nth(1));
     let _ = Difficulty::new().gradual_difficulty_for_mode::<Mania>(&map).map(|mut m| m.nth(1));
+    // InspectDifficulty has public fields: values that never went through a setter
+    for raw in [0.0f64, -0.0, -1.0, f64::NAN, 1e-320, 1e300] {
+        let mut ins = Difficulty::new().inspect();
+        ins.clock_rate = Some(raw);
+        let d = ins.into_difficulty();
+        let cr = d.clone().inspect().clock_rate;
+        assert!(matches!(cr, Some(c) if (0.01..=100.0).contains(&c)) || raw.is_nan(), "clock rate {raw} became {cr:?}");
+        std::hint::black_box(d.calculate(&map).stars());
+    }
     println!("miri-ok");
 }
